@@ -21,7 +21,9 @@ that the Proc model is stated over, rewritten into lean/YashModel/Generated/Proc
       transcribes: `enableBeforeLoop` (the SIGCHLD handler is installed before the `loop`), `waitTarget` (`Pid::ALL`),
       and per arm of the `match …wait(…)` the classified statements in source order — `okNoneArm` =
       ["wait_for_signals", "sigint_default_interrupt", "run_first_trap_return"] (then fall through to the next
-      iteration), `okSomeArm` = ["update_status", "return_ok"], `echildArm`, `otherErrArm`.  Arms in any order,
+      iteration), `okSomeArm` = ["update_status", "return_ok"], `echildArm`, `otherErrArm` (`Error::SystemError(e)`,
+      or a `From` conversion — `Error::from(e)`, `e.into()`, `Err(e)?` — when the `#[from] Errno` variant / the
+      `impl From<Errno> for Error` of the file says that it yields `SystemError`).  Arms in any order,
       any variable names, either order of the two conjuncts of the SIGINT test; a statement that is none of these
       (a `continue`, a test of another signal, a second `wait`) is a loud failure.
 
@@ -390,9 +392,45 @@ def wait_core(x):
         (r"return Ok\s*\(\s*\(\s*\)\s*\)", "return_ok")], "Ok(Some)")
     echild_arm = classify_simple(arms["echild"], [
         (r"return Err\s*\(\s*(?:Error::)?NothingToWait\s*\)", "nothing_to_wait")], "Err(ECHILD)")
-    err_arm = classify_simple(arms["err"], [
-        (r"return Err\s*\(\s*(?:Error::)?SystemError\s*\(\s*[a-z_]+\s*\)\s*\)", "system_error"),
-        (r"return Err\s*\(\s*[a-z_]+\s*\.\s*into\s*\(\s*\)\s*\)", "system_error")], "Err(other)")
+    # which variant an `Errno` is converted into by `From` (`Error::from(e)`, `e.into()`, `Err(e)?`): the variant marked
+    # `#[from] Errno` of the thiserror enum, or an explicit `impl From<Errno> for Error`
+    def from_errno_variant():
+        m = re.search(r"\benum\s+Error\b", src)
+        variants = []
+        if m:
+            ebody = x.item_body(src[m.start():], r"enum\s+Error\b", "enum Error of wait/core.rs")
+            variants = re.findall(r"\b([A-Z][A-Za-z0-9]*)\s*\(\s*#\[\s*from\s*\]\s*(?:[A-Za-z_]+::)*Errno\s*\)", ebody)
+        imp = re.search(r"impl\s+From\s*<\s*(?:[A-Za-z_]+::)*Errno\s*>\s*for\s+Error\b", src)
+        if imp:
+            ibody = x.item_body(src[imp.start():], r"impl\s+From", "impl From<Errno> for Error")
+            variants += re.findall(r"(?:Self|Error)\s*::\s*([A-Z][A-Za-z0-9]*)\b", ibody)
+        variants = sorted(set(variants))
+        if len(variants) != 1:
+            x.fail(f"{where}: cannot tell which variant `From<Errno> for Error` produces (found {variants})")
+        return variants[0]
+
+    def err_stmt(st):
+        t = st.rstrip(";").strip()
+        v = r"[a-z_][a-z_0-9]*"
+        m = re.fullmatch(r"return Err\s*\(\s*(?:Error::)?([A-Z][A-Za-z0-9]*)\s*\(\s*" + v + r"\s*\)\s*\)", t)
+        if m and m.group(1) not in ("from",):
+            return m.group(1)
+        conv = [r"return Err\s*\(\s*(?:Error|From|Self)\s*::\s*from\s*\(\s*" + v + r"\s*\)\s*\)",
+                r"return Err\s*\(\s*" + v + r"\s*\.\s*into\s*\(\s*\)\s*\)",
+                r"(?:return )?Err\s*\(\s*" + v + r"\s*\)\s*\?"]
+        if any(re.fullmatch(c, t) for c in conv):
+            return from_errno_variant()
+        return None
+
+    err_arm = []
+    for st in arms["err"]:
+        variant = err_stmt(st)
+        if variant == "SystemError":
+            err_arm.append("system_error")
+        elif variant is None:
+            x.fail(f"{where}: Err(other) arm: cannot classify `{st}`")
+        else:
+            x.fail(f"{where}: Err(other) arm: `{st}` produces Error::{variant}, not Error::SystemError (a real change)")
 
     def lst(v):
         return "[" + ", ".join(x.lean_str(t) for t in v) + "]"
